@@ -129,6 +129,7 @@ class Property:
         extra_tiers=None,
         shards=None,
         trusted_base=(),
+        prelude=False,
     ):
         self.id = id
         self.level = level
@@ -143,6 +144,56 @@ class Property:
         self.extra_tiers = extra_tiers or []
         self.shards = shards
         self.trusted_base = list(trusted_base)
+        # prelude=True ("history independence"): a third of the generated
+        # cases are pairs {"__prelude__": case A, "__main__": case B}; A runs
+        # first (its own oracle applies), then B runs in the same interpreter
+        # with only psutil's documented cross-call state reset.  B's oracle is
+        # unchanged, i.e. B's answers may not depend on A having been
+        # observed before.  Plain cases (and old replay files) run as before.
+        self.prelude = prelude
+        if prelude:
+            self._plain_strategy = strategy
+            self._plain_run_case = run_case
+            self.strategy = self._pair_strategy
+            self.run_case = self._pair_run_case
+
+    def _pair_strategy(self, tier):
+        from hypothesis import strategies as st
+
+        plain = self._plain_strategy(tier)
+        pair = st.fixed_dictionaries({"__prelude__": plain, "__main__": plain})
+        return st.one_of(plain, plain, pair)
+
+    def _pair_run_case(self, case):
+        from vlib import simk
+
+        if not (isinstance(case, dict) and "__main__" in case):
+            return self._plain_run_case(case)
+        pre = dict(case["__prelude__"])
+        pre.pop("allow_known", None)
+        try:
+            self._plain_run_case(pre)
+        except Violation as v:
+            raise Violation(v.clause, "[prelude part] " + str(v.detail)) from None
+        simk.RESET_MODE = "documented-only"
+        try:
+            res = self._plain_run_case(case["__main__"])
+        except Violation as v:
+            raise Violation(v.clause, "[after a prelude case] " + str(v.detail)) from None
+        finally:
+            simk.RESET_MODE = "full"
+        labels = res.labels
+        if isinstance(labels, dict):
+            labels = dict(labels)
+            labels["after-prelude"] = 1
+        else:
+            labels = list(labels) + ["after-prelude"]
+        nt = res.nontrivial
+        if isinstance(nt, str):
+            nt = "P|" + nt
+        elif nt:
+            nt = ["P|" + x for x in nt]
+        return Result(labels, nt, res.extra)
 
 
 class Stats:
